@@ -1187,7 +1187,20 @@ func (h *Hist) OpCheck(m mode, secs []*hSecret, unknown int) {
 	var ys []string
 	var yS []S
 	for _, s := range secs {
-		ys = append(ys, Yhex(s.secret))
+		y := Yhex(s.secret)
+		switch h.rng.Intn(6) {
+		case 0:
+			// the same point spelled in upper-case hex
+			y = strings.ToUpper(y)
+		case 1:
+			// ... or uncompressed
+			if b, err := hex.DecodeString(y); err == nil {
+				if pk, err := secp256k1.ParsePubKey(b); err == nil {
+					y = hex.EncodeToString(pk.SerializeUncompressed())
+				}
+			}
+		}
+		ys = append(ys, y)
 		yS = append(yS, A(s.h))
 	}
 	for i := 0; i < unknown; i++ {
@@ -1201,7 +1214,7 @@ func (h *Hist) OpCheck(m mode, secs []*hSecret, unknown int) {
 		var l []S
 		for i, st := range v.([]nut07.ProofState) {
 			hd := int64(-1)
-			if i < len(secs) && Yhex(secs[i].secret) == st.Y {
+			if i < len(secs) && i < len(ys) && ys[i] == st.Y {
 				hd = secs[i].h
 			}
 			l = append(l, L(A(hd), A(int64(st.State)), A(h.witHandle(st.Witness))))
